@@ -236,7 +236,8 @@ class SystemClock(Clock, metaclass=MetaSystemClock):
                         _libsc3.main._in_awake_call = True
                         delta = task.__awake__(cls)
                         if isinstance(delta, (int, float))\
-                        and not isinstance(delta, bool):
+                        and not isinstance(delta, bool)\
+                        and delta != float('inf'):  # As sched(), inf is never.
                             time = sched_time + delta
                             cls._sched_add(time, task)
                     except stm.StopStream:
@@ -326,7 +327,8 @@ class Scheduler():
             _libsc3.main._update_logical_time(self._seconds)
             _libsc3.main._in_awake_call = True
             delta = item.__awake__(self._clock)
-            if isinstance(delta, (int, float)) and not isinstance(delta, bool):
+            if isinstance(delta, (int, float)) and not isinstance(delta, bool)\
+            and delta != float('inf'):  # As sched(), inf is never.
                 self._sched_add(delta, item)
         except stm.StopStream:
             pass
@@ -873,7 +875,8 @@ class TempoClock(Clock, metaclass=MetaTempoClock):
                         _libsc3.main._in_awake_call = True
                         delta = task.__awake__(self)
                         if isinstance(delta, (int, float))\
-                        and not isinstance(delta, bool):
+                        and not isinstance(delta, bool)\
+                        and delta != float('inf'):  # As sched(), inf is never.
                             time = self._beats + delta
                             self._sched_add(time, task)
                     except stm.StopStream:
